@@ -6,7 +6,6 @@ use crate::{
     sig,
     store::{
         col_count,
-        dump,
     },
     util::*,
 };
@@ -75,7 +74,7 @@ struct Recv {
 
 pub fn run_history(args: &Args, report: &Report, hs: u64) {
     let mut rng = rng_for(hs, &[2]);
-    let backend = if rng.gen_range(0..100) < 80 {
+    let backend = if rng.gen_range(0..100) < args.by_tier(92, 80) {
         Backend::Memory
     } else {
         Backend::RocksDb
@@ -312,7 +311,7 @@ pub fn run_history(args: &Args, report: &Report, hs: u64) {
     let commits = env.ctl.take_commits();
     let early = env.ctl.take_early();
     let events = env.ctl.log.snapshot();
-    let final_dump = dump(&env.inner);
+    let final_dump = env.dump();
     let final_latest = HistoricalView::latest_height(&env.db).map(|x| *x);
     let final_blocks: BTreeMap<u32, String> = {
         let mut m = BTreeMap::new();
